@@ -220,3 +220,14 @@ func (fi fileInfo) Mode() fs.FileMode  { return 0o644 }
 func (fi fileInfo) ModTime() time.Time { return time.Time{} }
 func (fi fileInfo) IsDir() bool        { return false }
 func (fi fileInfo) Sys() any           { return nil }
+
+
+// FileNT is a File without Truncate: an io.ReaderAt + io.Writer + io.WriterAt only,
+// like a caller-supplied buffer type that cannot shrink.
+type FileNT struct{ f *File }
+
+func NewFileNT(d *Disk) *FileNT { return &FileNT{f: NewFile(d)} }
+
+func (n *FileNT) ReadAt(p []byte, off int64) (int, error)  { return n.f.ReadAt(p, off) }
+func (n *FileNT) Write(p []byte) (int, error)              { return n.f.Write(p) }
+func (n *FileNT) WriteAt(p []byte, off int64) (int, error) { return n.f.WriteAt(p, off) }
